@@ -1,13 +1,12 @@
 SPECIFICATION MSpec
 CONSTANTS
-  B = 2
+  B = 1
   MaxArr = 4
   Srcs = {1}
   LevelTriggered = TRUE
-  MaxBatches = 16
+  MaxBatches = 2
   DrainExitsOnEmptyBatch = FALSE
 VIEW mview
-ACTION_CONSTRAINT Emit
 INVARIANTS AtMostOnce OwnSlot Faithful NoStranded BatchBound ExactlyOnce OwnProtocol NoReplyToInvalid
 PROPERTY Responsive
 CHECK_DEADLOCK FALSE
